@@ -335,10 +335,10 @@ def run_scenario(scn, monitor_factories, package_dir, keep_log=False, crash_prop
         ctx.setting = setting
         ctx.package_dir = package_dir
         core = Core(ctx, scn.get("max_events", 10 ** 9), keep_log=keep_log)
-        monitors = [core] + [f(ctx) for f in monitor_factories]
         FACADE.seed(scn["seed"])
         FACADE.count = 0
         FACADE.override = None
+        monitors = [core] + [f(ctx) for f in monitor_factories]
         jf_uuid._uuid = _uuid_module.UUID(int=scn["seed"] & ((1 << 128) - 1))
         HUB.attach(monitors)
         os.chdir(package_dir)
@@ -376,11 +376,6 @@ def run_scenario(scn, monitor_factories, package_dir, keep_log=False, crash_prop
             mediator.post_run()
         except ViolationStop:
             result.status = "violation"
-        except BaseException as exc:
-            if not getattr(exc, "verif_abort", False):
-                raise
-            result.status = "aborted"
-            result.abort = exc
         except HarnessError as exc:
             result.status = "harness_error"
             result.error = "".join(traceback.format_exception(type(exc), exc, exc.__traceback__))
@@ -392,6 +387,11 @@ def run_scenario(scn, monitor_factories, package_dir, keep_log=False, crash_prop
                 result.status = "crash"
             result.error = text
             result.crash_files = files
+        except BaseException as exc:
+            if not getattr(exc, "verif_abort", False):
+                raise
+            result.status = "aborted"
+            result.abort = exc
         if ctx.violations:
             result.status = "violation"
         result.violations = list(ctx.violations)
